@@ -137,18 +137,36 @@ static void compare(struct st *s, const char *what)
 	}
 	if (s->dead)
 		return;
-	/* serialization uses all the bytes: read it back with the reference reader */
-	size_t tl = 0;
-	const char *t = json_object_to_json_string_length(o, JSON_C_TO_STRING_PLAIN, &tl);
-	if (!t)
-		fail(s, "serialize-null", "%s: serialization returned NULL", what);
-	else
+	/* serialization uses all the bytes, under every flag set: read it back with the reference reader
+	 * (colour escapes ESC [ ... m removed first) */
+	static const int fl[] = {JSON_C_TO_STRING_PLAIN, JSON_C_TO_STRING_COLOR, JSON_C_TO_STRING_PRETTY | JSON_C_TO_STRING_COLOR, JSON_C_TO_STRING_NOSLASHESCAPE,
+	                         JSON_C_TO_STRING_SPACED | JSON_C_TO_STRING_PRETTY_TAB};
+	for (unsigned f = 0; f < sizeof fl / sizeof fl[0] && !s->dead; f++)
 	{
+		size_t tl = 0;
+		const char *t = json_object_to_json_string_length(o, fl[f], &tl);
+		if (!t)
+		{
+			fail(s, "serialize-null", "%s: serialization (flags %d) returned NULL", what, fl[f]);
+			continue;
+		}
+		static unsigned char plain[70016 * 6 + 256];
+		size_t pl = 0;
+		for (size_t i = 0; i < tl && pl < sizeof plain; i++)
+		{
+			if (t[i] == 0x1b && i + 1 < tl && t[i + 1] == '[')
+			{
+				while (i < tl && t[i] != 'm')
+					i++;
+				continue;
+			}
+			plain[pl++] = (unsigned char)t[i];
+		}
 		va_reset();
 		struct rr_result rr;
-		rr_parse((const unsigned char *)t, tl, NULL, &rr);
+		rr_parse(plain, pl, NULL, &rr);
 		if (rr.status != RR_OK || rr.value->k != V_STR || rr.value->slen != (size_t)s->len || memcmp(rr.value->s, s->m, (size_t)s->len))
-			fail(s, "serialization-differs", "%s: the serialized text %.80s does not denote the %d model bytes", what, t, s->len);
+			fail(s, "serialization-differs", "%s: the text serialized with flags %d, %.80s, does not denote the %d model bytes", what, fl[f], t, s->len);
 	}
 }
 static void apply(void *vs, int op, int check)
